@@ -17,6 +17,9 @@ def c12_struct(tier="quick", seed=0):
     src = S.source()
     # 1. module-level and class-level bindings to mutable containers are never mutated; no caches
     n_bind = 0
+    all_classes = set()
+    for mod, mi in src.modules.items():
+        all_classes.update(n.name for n in ast.walk(mi.tree) if isinstance(n, ast.ClassDef) and not any(getattr(b, "id", "") in ("Enum", "IntEnum", "Exception") for b in n.bases))
     for mod, mi in src.modules.items():
         tree = mi.tree
         mutable = {}          # name -> lineno  (module-level), "Class.name" for class level
@@ -31,6 +34,12 @@ def c12_struct(tier="quick", seed=0):
                 if isinstance(val, (ast.List, ast.Dict, ast.Set, ast.ListComp, ast.DictComp, ast.SetComp)) or \
                         (isinstance(val, ast.Call) and getattr(val.func, "id", "") in ("list", "dict", "set", "defaultdict", "OrderedDict", "bytearray")):
                     mutable[name] = st.lineno
+                elif isinstance(val, ast.Call) and isinstance(val.func, ast.Name) and val.func.id in all_classes and val.func.id not in ("JSUndefined", "JSNull"):
+                    # a module-level INSTANCE of a class of the package (e.g. a shared empty array): an object scripts can
+                    # reach and change, one for the whole process
+                    out.append(ob(f"C12.struct.module-state.{mod.split('.')[-1]}.{name}", False, "K3",
+                                  f"module-level instance {name} = {val.func.id}(...) ({mod}:{st.lineno}) is shared by every context of the process",
+                                  witness=f"one context changes the object bound to {name}, another observes it"))
             if isinstance(st, ast.ClassDef):
                 is_dc = any((getattr(d, "id", None) or getattr(getattr(d, "func", None), "id", None)) == "dataclass" for d in st.decorator_list)
                 for cst in st.body:
@@ -315,7 +324,7 @@ def c12_isolation(tier="quick", seed=0):
 # ---- bounded: every evaluation of a creating expression yields a fresh object -----------------------------------------
 FRESH = ["new Function('a', 'return a + 1')", "new Function('return 1')", "(function () { return 1; })", "(() => 1)", "/ab+c/g", "new RegExp('ab+c', 'g')", "({})", "[]",
          "new Object()", "Object.create(null)", "new Error('x')", "new Uint8Array(2)", "new ArrayBuffer(4)", "(function () {}).bind(null)", "eval('({})')", "eval('(function () {})')",
-         "Object.keys({a: 1})", "'a,b'.split(',')", "JSON.parse('{\"a\": [1]}')", "[1, 2].map(function (x) { return x; })", "Object.assign({}, {a: 1})"]
+         "Object.keys({a: 1})", "'a,b'.split(',')", "JSON.parse('{\"a\": [1]}')", "JSON.parse('[]')", "JSON.parse('{}')", "JSON.parse('[[]]')[0]", "(function () { return arguments; })()", "(function () { return arguments; })(1)", "[1, 2].map(function (x) { return x; })", "Object.assign({}, {a: 1})"]
 
 
 @groups.group(id="C12.bounded.fresh-objects", prop="C12", kind="B", functions=["microjs.context:Context.eval"])
@@ -330,6 +339,11 @@ def c12_fresh(tier="quick", seed=0):
             ("two-evals", [f"var a = {e}; a.mark = 1; 0", f"var b = {e}; (a !== b) + '|' + (b.mark === undefined)"], "true|true"),
             ("after-throw", [f"var a = {e}; a.mark = 1; if (a.prototype) a.prototype.m = 1; throw 1", f"var b = {e}; (b.mark === undefined) + '|' + (!b.prototype || b.prototype.m === undefined)"], "true|true"),
             ("prototype", [f"var a = {e}, b = {e}; if (a.prototype) {{ a.prototype.m = 1; }} (!b.prototype || (b.prototype.m === undefined && a.prototype !== b.prototype)) + ''"], "true"),
+            # the SAME expression site evaluated twice (a literal in a function body / a loop body)
+            ("same-site-function", [f"function mk() {{ return {e}; }} var a = mk(), b = mk(); a.mark = 1; if (a.lastIndex !== undefined) a.lastIndex = 1; "
+                                    f"(a !== b) + '|' + (b.mark === undefined) + '|' + (b.lastIndex === undefined || b.lastIndex === 0)"], "true|true|true"),
+            ("same-site-loop", [f"var made = []; for (var i = 0; i < 2; i++) {{ made.push({e}); }} made[0].mark = 1; (made[0] !== made[1]) + '|' + (made[1].mark === undefined)"], "true|true"),
+            ("same-site-two-evals", [f"function mk() {{ return {e}; }} var a = mk(); a.mark = 1; if (a.push) a.push(9); 0", "var b = mk(); (a !== b) + '|' + (b.mark === undefined) + '|' + (!b.push || b.length !== a.length)"], "true|true|true"),
         ]
         bad = None
         for pname, srcs, want in probes:
@@ -344,4 +358,18 @@ def c12_fresh(tier="quick", seed=0):
                 bad = (pname, srcs, got)
         out.append(ob(f"C12.bounded.fresh-objects.{i:02d}", bad is None, "B", f"{e}: fresh in {len(probes)} settings" if bad is None else f"{e} [{bad[0]}]: {bad[2]!r}",
                       witness=("; ".join(bad[1]) if bad else None), confirmed=True if bad else None, domain=len(probes)))
+    return out
+
+
+@groups.group(id="C12.bounded.current-state", prop="C12", kind="B", functions=["microjs.context:Context.get", "microjs.context:Context.eval"])
+def c12_current_state(tier="quick", seed=0):
+    """the state a context keeps is the script's state: what get / eval return follows later changes made by the script and is
+    not a copy remembered from an earlier call (the sequences of C11)"""
+    from contracts.C11_boundary import c11_current_state
+    out = []
+    for o in c11_current_state(tier, seed):
+        o = dict(o)
+        o["id"] = o["id"].replace("C11.", "C12.", 1)
+        o["finding_key"] = o["id"]
+        out.append(o)
     return out
